@@ -1,0 +1,68 @@
+//go:build verif
+
+package core
+
+// Contracts for property C05 (the saved synchronization state stays valid and
+// faithful under any transition outcome): the change-application function and
+// the validity verdict the controller checks before saving. Comment-only file:
+// compiled only under the "verif" build tag, contains no code. The "//@"
+// lines are read by govc.
+
+// ------------------------------------------------------------- validation
+//
+// validtree(e, s) is the verdict of (*Entry).EnsureValid(s) on the tree rooted
+// at e. Entries are never written after construction (immutable directive of
+// this package), so the verdict is a function of the entry and the flag.
+// Trusted (the validator is recursive over the whole tree; its body is not
+// verified here): it writes nothing and reports nil exactly for valid trees.
+//@ ufunc validtree(e *Entry, synchronizable bool) bool
+//@ func (*Entry).EnsureValid
+//@   opaque
+//@   pure
+//@   ensures[verdict] (result == nil) <==> validtree(e, synchronizable)
+
+// ------------------------------------------------------------------ Apply
+//
+// dirnode(e): e is a directory or phantom directory entry, the kinds Apply
+// descends into or stores contents in (and the kinds a leaf-preserving copy
+// copies instead of sharing). owned(e): the contents map of e (if any) was allocated
+// during the current call, and so was every directory entry stored in it.
+//@ pred dirnode(e) = e != nil && (e.Kind == EntryKind_Directory || e.Kind == EntryKind_PhantomDirectory)
+//@ pred owned(e) = (e.Contents == nil || fresh(e.Contents)) && forall k string :: e.Contents != nil && has(e.Contents, k) && dirnode(e.Contents[k]) ==> fresh(e.Contents[k]) && isa(e.Contents[k], "Entry")
+//@ pred ownentry(e) = fresh(e) && isa(e, "Entry")
+
+// A copy that preserves leaves shares only non-directory entries with the
+// original: every entry allocated by the call owns its contents map and its
+// directory children.
+//@ func (*Entry).Copy
+//@   ensures[owned] result != nil ==> isa(result, "Entry")
+//@   ensures[owned] behavior == EntryCopyBehaviorDeepPreservingLeaves ==> forall x *Entry :: ownentry(x) ==> owned(x)
+//@   loop 2 invariant[owned] result != nil && ownentry(result) && result.Contents != nil && fresh(result.Contents) && result.Kind == e.Kind && result.Executable == e.Executable && result.Target == e.Target
+//@   loop 2 invariant[owned] forall x *Entry :: ownentry(x) ==> owned(x)
+
+// Apply:
+//   same     no changes: the result is the base itself, no error
+//   root     a single root replacement: the result is the new entry itself
+//   err      an error comes with a nil result
+//   frame    nothing that existed before the call is written: every store
+//            goes into an object allocated during the call ("modifies" with
+//            an empty list; "mutates" switches off the convention that
+//            entries are immutable for this proof, so it is proved, not
+//            assumed)
+//   nil/bounds/... no panic: no nil-map write, no index out of range, no nil
+//            dereference
+//@ func Apply
+//@   mutates
+//@   requires forall k in 0..len(changes) :: changes[k] != nil
+//@   modifies
+//@   ensures[same] len(changes) == 0 ==> result0 == base && result1 == nil
+//@   ensures[root] len(changes) == 1 && changes[0].Path == "" ==> result0 == changes[0].New && result1 == nil
+//@   ensures[err] result1 != nil ==> result0 == nil
+//@   loop 1 modifies fresh
+//@   loop 1 invariant -1 <= rangeindex && rangeindex < len(changes)
+//@   loop 1 invariant[own] result == nil || ownentry(result)
+//@   loop 1 invariant[own] forall x *Entry :: ownentry(x) ==> owned(x)
+//@   loop 2 modifies
+//@   loop 2 invariant len(components) >= 1
+//@   loop 2 invariant[own] dirnode(parent) ==> ownentry(parent)
+//@   loop 2 invariant[own] forall x *Entry :: ownentry(x) ==> owned(x)
